@@ -2,6 +2,7 @@ import LZ4V.Properties.C20
 import LZ4V.Properties.C03Fun
 import LZ4V.Proofs.FileRProof
 import LZ4V.Proofs.CliFrameProof
+import LZ4V.Proofs.FrameLinkedProof
 /-!
 # C20, the read side — `LZ4F_readOpen` / `LZ4F_read` return what the frame holds, whatever the read sizes
 
@@ -47,5 +48,16 @@ theorem written_file_reads_back (E : Env) (ok : FrameFast.EnvOK E) (hE : DecBoun
     (LZ4V.Model.CliFrame.writeOps_no_begin maxWrite writes) file h (by rw [hfed]; exact hcs)
   rw [hfed] at hF
   exact read_session_safe E hE file writes.flatten (validFile_of_pFrame E file _ F hF) r0 ho sizes
+
+/-- **the same with LINKED blocks (the default of `LZ4F_writeOpen` when the caller passes no preferences)**: a file holding the frame the linked-blocks model
+    produces — for ANY schedule of block placements and history saves, on a context with any past — reads back, with any sequence of read sizes, to a
+    prefix of what was written, never an error -/
+theorem written_linked_file_reads_back (E : Env) (ok : LZ4V.Model.FrameLinked.EnvOKL E) (hE : DecBounded E) (hashOf : Array UInt8 → Bool → Nat → Nat)
+    (p : FrameFast.Prefs) (hb : 4 ≤ p.bsid ∧ p.bsid ≤ 7) (hcs64 : p.contentSize < 256 ^ 8) (hd32 : p.dictID < 256 ^ 4)
+    (S0 : LZ4V.Model.FastX.XState) (hI0 : LZ4V.Model.FastX.Inv S0 []) (hnd0 : S0.dctx = none) (ops : List LZ4V.Model.FrameLinked.LOp)
+    (hleg : LZ4V.Model.FrameLinked.LegalSizes p ops) (hcs : p.contentSize = 0 ∨ p.contentSize = (LZ4V.Model.FrameLinked.contentOf ops).length)
+    (r0 : Reader) (ho : readOpen E (LZ4V.Model.FrameLinked.frameFrom E hashOf p S0 ops) = .ok r0) (sizes : List Nat) :
+    ∃ res, readAll E r0 sizes = .ok res ∧ res.flatten <+: LZ4V.Model.FrameLinked.contentOf ops :=
+  read_session_safe E hE _ _ (validFile_of_pFrame E _ _ _ (LZ4V.Model.FrameLinked.frameFrom_parses E ok hashOf p hb hcs64 hd32 S0 hI0 hnd0 ops hleg hcs)) r0 ho sizes
 
 end LZ4V.C20
